@@ -1173,6 +1173,9 @@ class Sequence:
         #If there are no charged residues
         if(self.FCR() == 0):
             self.dmax = 0
+            # every arrangement has delta 0, so the sequence itself will do
+            if returnSeqDeltaMax:
+                self.seqDeltaMax = self.seq
 
         #################################################################
         # FIRST computational trick - if only positive or negative
